@@ -550,19 +550,4 @@ theorem C10_check_sound (l : List E) (h : pwDisj l = true) : ∀ x, cnt l x ≤ 
 /-- the part of a path of `write_with` that runs before the layout write lock is dropped for the first time -/
 def firstSection (l : List String) : List String := l.takeWhile (· != "dropLayout")
 
-/-- C10, the tie to the source: in every path of `Region::write_with` that claims space, the claim
-(`set_reserved` on the region, `reserve` for a relocation target) is made in the section that established that the
-space is free — before the layout lock is dropped; the relocation's `move_region` / `take_reserved` run after the lock
-was taken again; `create_region_if_needed` re-checks the hole and the file length under the write lock and inserts
-the region before releasing it -/
-theorem C10_sections :
-    firstSection Gen.wwExtendLastOrder = ["setReserved"] ∧
-    firstSection Gen.wwHoleOrder = ["removeOrCompressHole", "setReserved"] ∧
-    Gen.wwRelocateOrder = ["findHole", "removeOrCompressHole", "reserve", "dropLayout", "layoutLen", "reserve", "dropLayout",
-      "setMinLen", "layoutMut", "takeReserved", "dbCopy", "dbWrite", "layoutMut", "moveRegion", "takeReserved", "setStart",
-      "setReserved", "setLen"] ∧
-    Gen.wwFitsOrder = ["dbWrite", "setLen"] ∧
-    Gen.createRegionOrder = ["layoutRead", "findHole", "layoutLen", "dropLayout", "setMinLen", "dropLayout", "layoutMut",
-      "regionsMut", "findHole", "removeOrCompressHole", "layoutLen", "fileLen", "dropLayout", "setMinLen", "retry", "regionsCreate", "insertRegion"] := by
-  decide
 end AnyDB.Conc
